@@ -13,14 +13,14 @@ From DV Require Import RightsSpec RightsP RoomNode RoomNodeP Run_C07.
 (* ------------------------------------------------------------------ equality tests *)
 Lemma unode_eqb_eq a b : unode_eqb a b = true -> a = b.
 Proof.
-  unfold unode_eqb. rewrite !andb_true_iff. intros ((((H1 & H2) & H3) & H4) & H5).
-  apply N.eqb_eq in H1, H3, H4. apply Z.eqb_eq in H2. apply Bool.eqb_prop in H5.
+  unfold unode_eqb. rewrite !andb_true_iff. intros (((((H1 & H2) & H3) & H4) & H5) & H6).
+  apply N.eqb_eq in H1, H3, H4. apply Z.eqb_eq in H2, H6. apply Bool.eqb_prop in H5.
   destruct a, b; simpl in *; subst; reflexivity.
 Qed.
 Lemma rnode_eqb_eq a b : rnode_eqb a b = true -> a = b.
 Proof.
-  unfold rnode_eqb. rewrite !andb_true_iff. intros (((((H1 & H2) & H3) & H4) & H5) & H6).
-  apply N.eqb_eq in H1, H3, H4. apply Z.eqb_eq in H2. apply Bool.eqb_prop in H5, H6.
+  unfold rnode_eqb. rewrite !andb_true_iff. intros ((((((H1 & H2) & H3) & H4) & H5) & H6) & H7).
+  apply N.eqb_eq in H1, H3, H4. apply Z.eqb_eq in H2, H7. apply Bool.eqb_prop in H5, H6.
   destruct a, b; simpl in *; subst; reflexivity.
 Qed.
 Lemma edge_eqb_eq a b : edge_eqb a b = true -> a = b.
@@ -651,8 +651,8 @@ Proof.
 Qed.
 
 (* ------------------------------------------------------------------ D. closed witnesses (the harness replays them as directed cases) *)
-Definition U_ (id date author k : Z) (b : bool) : unode := Build_unode (Z.to_N id) date (Z.to_N author) (Z.to_N k) b.
-Definition R_ (id date author e : Z) (s a : bool) : rnode := Build_rnode (Z.to_N id) date (Z.to_N author) (Z.to_N e) s a.
+Definition U_ (id date author k : Z) (b : bool) : unode := Build_unode (Z.to_N id) date (Z.to_N author) (Z.to_N k) b date.
+Definition R_ (id date author e : Z) (s a : bool) : rnode := Build_rnode (Z.to_N id) date (Z.to_N author) (Z.to_N e) s a date.
 Definition E_ (src label dest date author : Z) : edge := Build_edge (Z.to_N src) (Z.to_N label) (Z.to_N dest) date (Z.to_N author).
 Definition G_ (id date author : Z) := Build_anode (Z.to_N id) date (Z.to_N author).
 Definition RM_ (id cdate date author : Z) := Build_roomnode (Z.to_N id) cdate date (Z.to_N author).
